@@ -6,7 +6,7 @@ From Coq Require Import ZArith List Lia Bool.
 Import ListNotations.
 Open Scope Z_scope.
 
-Inductive exn := IndexError | ValueError | TypeError | AssertionError.
+Inductive exn := IndexError | ValueError | TypeError | AssertionError | StopIteration.
 Inductive res (A : Type) := Ok (a : A) | Raise (e : exn).
 Arguments Ok {A}. Arguments Raise {A}.
 
